@@ -15,11 +15,14 @@ E-PURE (state machines of `auth.rs`), states and messages `:`-separated:
   `authz adv=<pids> pid=<p> rem=<live remotable pids>` → `<0|1> adv=<pids afterwards>`   (`authorized_local_actor`)
 
 E-LTS (a real `NodeServer`, the harness is the peer):
-  `node <name>`                                            → `ok`        (fresh NodeServer; forgets all sessions)
+  `node <name> transitive=<0|1>`                           → `ok`        (fresh NodeServer; forgets all sessions)
   `open <k> <server|client> thisname= thisconn= connid= transitive=` → `sent=[…]`
   `send <k> <frame> check= elected= fresh= pids= groups= rem= sessions= h=` → observation
+  `batch <k> <frame>+<frame>+… env…`                       → observation (frames written back-to-back)
   `local <k> <spawn|term> <pid> <rem 0|1> groups=<scope/group/pid;…>` → observation
   `garbage <k> <hex>` / `drop <k>`                         → observation (transport closed)
+  `survived`                                               → `1` (a fresh session authenticated after a wire fault on another one)
+  `connects`                                               → number of TCP connections the node opened to the advertised address
   `killed <k>`                                             → observation (the NodeServer stopped the session: it lost an election)
 observation: `sent=[f|…] probe=[pid:cast|pid:call|…] proxies=[…] pg=[scope/group:pids;…] listed=0|1 alive=0|1`
 -/
@@ -199,10 +202,13 @@ structure Ses where
 
 structure St where
   sessions : List (Nat × Ses) := []
+  /-- transitive `connect` effects of the current node (all sessions) -/
+  connects : Nat := 0
+  anyGood : Bool := false
 
 def St.get? (s : St) (k : Nat) : Option Ses := (s.sessions.find? (·.1 == k)).map (·.2)
 def St.set (s : St) (k : Nat) (v : Ses) : St :=
-  { sessions := (s.sessions.filter (·.1 != k)) ++ [(k, v)] }
+  { s with sessions := (s.sessions.filter (·.1 != k)) ++ [(k, v)], anyGood := s.anyGood || v.oGood }
 
 def sortNats (l : List Nat) : List Nat := (l.toArray.qsort (· < ·)).toList
 
@@ -233,23 +239,49 @@ def showPg (pg : List (String × String × List Nat)) : String :=
   let es := pg.map (fun e => s!"{word e.1}/{word e.2.1}:{showNats (sortNats e.2.2)}")
   ";".intercalate (es.toArray.qsort (· < ·)).toList
 
-/-- The observable projection of a step. -/
-def showObs (ses : Ses) (eff : List (Effect D)) : String :=
+def isSubseq : List String → List String → Bool
+  | [], _ => true
+  | _ :: _, [] => false
+  | a :: as, b :: bs => if a == b then isSubseq as bs else isSubseq (a :: as) bs
+
+/-- what the implementation reported as sent, if parsable -/
+def implSent (impl : String) : Option (List String) :=
+  match words impl with
+  | a :: _ =>
+    if a.startsWith "sent=[" && a.endsWith "]" then
+      let inner := ((a.drop 6).toString.dropEnd 1).toString
+      some (if inner == "" then [] else splitOnChar inner '|')
+    else none
+  | [] => none
+
+/-- The observable projection of a step. Frames queued in a step that also stops the session
+may never reach the wire (the writer is torn down with the session): for such a step any
+subsequence of the predicted frames is accepted, nothing beyond them. -/
+def showObs (ses : Ses) (eff : List (Effect D)) (impl : String := "") : String :=
   let sent := eff.filterMap (fun e => match e with
     | .send f => some (showFrame f)
     | _ => none)
   -- a delivered call is answered by the probe: the reply forwarder sends a `reply` frame
-  let replies := eff.filterMap (fun e => match e with
-    | .deliverLocal pid true => some s!"reply:{pid}"
+  -- (replies are produced concurrently by the forwarder tasks: listed last, by ascending pid)
+  let replies := (sortNats (eff.filterMap (fun e => match e with
+    | .deliverLocal pid true => some pid
+    | _ => none))).map (fun pid => s!"reply:{pid}")
+  -- deliveries grouped by target (ascending pid), in arrival order per target: the order in
+  -- which different actors get to run is not part of the observation
+  let dl := eff.filterMap (fun e => match e with
+    | .deliverLocal pid c => some (pid, c)
     | _ => none)
-  let probe := eff.filterMap (fun e => match e with
-    | .deliverLocal pid c => some s!"{pid}:{if c then "call" else "cast"}"
-    | _ => none)
+  let probe := (sortNats (dl.map (·.1)).eraseDups).flatMap (fun p =>
+    (dl.filter (·.1 == p)).map (fun (x : Nat × Bool) => s!"{x.1}:{if x.2 then "call" else "cast"}"))
   let dead := ses.st.stopped
+  let allSent := sent ++ replies
+  let allSent := match dead, implSent impl with
+    | true, some is => if isSubseq is allSent then is else allSent
+    | _, _ => allSent
   let proxies := if dead then [] else sortNats ses.st.proxies
   let pg := if dead then "" else showPg ses.pg
   let listed := ses.authed && !dead
-  s!"sent=[{"|".intercalate (sent ++ replies)}] probe=[{"|".intercalate probe}] proxies=[{showNats proxies}] pg=[{pg}] listed={if listed then 1 else 0} alive={if dead then 0 else 1}"
+  s!"sent=[{"|".intercalate allSent}] probe=[{"|".intercalate probe}] proxies=[{showNats proxies}] pg=[{pg}] listed={if listed then 1 else 0} alive={if dead then 0 else 1}"
 
 /-! ### the run-time oracle (`C17.ok` on the implementation's observations alone) -/
 
@@ -348,6 +380,19 @@ def fsmOracleCli (st : Client D) (m : Msg D) (impl : String) : List String :=
 
 def freshOf (ws : List String) : Nat := ((getField ws "fresh").bind (·.toNat?)).getD 0
 
+/-- The property clause "any malformed, out-of-order or wrong-digest authentication message
+closes the session": on a live, unauthenticated session (model state, validated so far by the
+correspondence) a frame that is an authentication violation must leave the session dead. -/
+def violationOracle (ses : Ses) (fr : Frame D) (impl : String) : List String :=
+  match fr with
+  | .auth m =>
+    if !ses.st.stopped && !ses.st.auth.isOk && !selfConnection ses.cfg ses.st && !ses.st.auth.accepts m then
+      match parseObs? impl with
+      | some o => if o.alive then ["auth-violation-did-not-close-session"] else []
+      | none => []
+    else []
+  | _ => []
+
 def closeTransport (ses : Ses) : Ses :=
   { ses with st := { ses.st with stopped := true } }
 
@@ -381,7 +426,16 @@ def step (st : St) (op impl : String) : St × StepOut :=
     -- oracle on the implementation's answer: allowed only if advertised and a live remotable actor
     let orc := if impl.startsWith "1" && !(adv.contains pid && rem.contains pid) then ["delivery-to-unadvertised-pid"] else []
     (st, { model := s!"{if ok then 1 else 0} adv={showNats (sortNats s1.advertised)}", oracle := orc, nontrivial := true })
-  | ["node", _] => ({ sessions := [] }, { model := "ok" })
+  | "node" :: _ => ({ sessions := [] }, { model := "ok" })
+  | ["survived"] =>
+    -- after a framing fault on one session a fresh session must still authenticate (C19)
+    (st, { model := "1", oracle := if impl == "1" then [] else ["node-wedged-after-wire-fault"], nontrivial := true })
+  | ["connects"] =>
+    -- oracle: the node dials a peer-supplied address only if some session presented the right digest
+    let orc := match impl.toNat? with
+      | some n => if n > 0 && !st.anyGood then ["effect-before-authentication"] else []
+      | none => []
+    (st, { model := toString st.connects, oracle := orc, nontrivial := st.connects > 0 })
   | "open" :: k :: side :: _ =>
     match k.toNat? with
     | some k =>
@@ -403,9 +457,31 @@ def step (st : St) (op impl : String) : St × StepOut :=
       let ses' : Ses := { ses with st := s', pg := applyPg ses.pg eff,
                                      authed := ses.authed || eff.contains Effect.authenticated }
       let rem := ((getField ws "rem").bind natList?).getD []
-      let (sesO, orc) := oracleOn ses' (some fr) tbl rem impl
+      let (sesO, orc1) := oracleOn ses' (some fr) tbl rem impl
+      let orc := orc1 ++ violationOracle ses fr impl
       let nt := eff.any (·.gated) || s'.stopped
-      (st.set (k.toNat?.getD 0) sesO, { model := showObs ses' eff, oracle := orc, nontrivial := nt })
+      let nc := (eff.filter (fun e => match e with | .connect _ => true | _ => false)).length
+      ({ st.set (k.toNat?.getD 0) sesO with connects := st.connects + nc },
+       { model := showObs ses' eff impl, oracle := orc, nontrivial := nt })
+    | _, _ => (st, { model := "bad-op" })
+  | "batch" :: k :: fs :: _ =>
+    match k.toNat?.bind st.get?, (splitOnChar fs '+').mapM parseFrame? with
+    | some ses, some frames =>
+      let env := parseEnv ws
+      let (s', eff) := frames.foldl (fun (acc : SState D × List (Effect D)) fr =>
+        let (s2, e2) := Session.handle (Hof tbl) ses.cfg acc.1 env (.frame fr)
+        (s2, acc.2 ++ e2)) (ses.st, [])
+      let ses' : Ses := { ses with st := s', pg := applyPg ses.pg eff,
+                                     authed := ses.authed || eff.contains Effect.authenticated }
+      let rem := ((getField ws "rem").bind natList?).getD []
+      -- the oracle sees the digest the burst may have carried
+      let presented := frames.find? (fun f => match f with
+        | .auth (.clientChallenge _ _) => true
+        | .auth (.serverAck _) => true
+        | _ => false)
+      let (sesO, orc) := oracleOn ses' presented tbl rem impl
+      let nt := eff.any (·.gated) || s'.stopped
+      (st.set (k.toNat?.getD 0) sesO, { model := showObs ses' eff impl, oracle := orc, nontrivial := nt })
     | _, _ => (st, { model := "bad-op" })
   | "local" :: k :: what :: pid :: rem :: _ =>
     match k.toNat?.bind st.get?, pid.toNat? with
@@ -428,7 +504,11 @@ def step (st : St) (op impl : String) : St × StepOut :=
     match k.toNat?.bind st.get? with
     | some ses =>
       let ses' := closeTransport ses
-      let (sesO, orc) := oracleOn ses' none tbl [] impl
+      let (sesO, orc0) := oracleOn ses' none tbl [] impl
+      -- a framing fault / EOF closes this session (C19: "closes that session only")
+      let orc := orc0 ++ (match parseObs? impl with
+        | some o => if o.alive && !(ws.head? == some "killed") then ["wire-fault-did-not-close-session"] else []
+        | none => [])
       (st.set (k.toNat?.getD 0) sesO, { model := showObs ses' [], oracle := orc, nontrivial := true })
     | none => (st, { model := "bad-op" })
   | _ => (st, { model := "bad-op" })
